@@ -174,6 +174,8 @@ def feasible(pc, extra=None):
     an infeasible path that survives only yields obligations that are proved from the full condition)"""
     qf = [c for c in pc if not _has_quant(c)]
     r, _ = check(qf, extra, rlimit=2_000_000)
+    if r == z3.unknown:          # out of budget, not "feasible": one more try with a larger budget before the path is kept (keeping it is the sound default)
+        r, _ = check(qf, extra, rlimit=60_000_000)
     return r != z3.unsat
 
 def unopt(v):
